@@ -1422,3 +1422,61 @@ def encode_writes(F):
                       "`%s` (in %s, reachable from encode_internal via %s) mutates IR state while encoding and is not a reviewed idempotent pattern: a second encode() starts from different state and can produce different bytes" % (
                           key, f["path"], " → ".join(x.split("::")[-1] for x in mirutil.call_path(parent, f["path"])[-4:])))
     return r
+
+
+def emit_all(F):
+    """R-EMIT-ALL: an emission loop of Module::encode_internal — a `for` over one of the module's own collections whose
+    body hands something to a wasm_encoder section builder — emits on every pass through the loop body, except for
+    elements it recognises as deleted or as belonging to the other (import/local) half of the index space.  Any other
+    condition under which an element is passed over silently removes it from the output and shifts every later index."""
+    from vlib.paths import paths
+    r = RuleResult("R-EMIT-ALL",
+                   "every emission loop of encode_internal reaches a wasm_encoder sink on each iteration unless the element is deleted or of the other import/local kind")
+    fn = F.one_fn(name="encode_internal", self_adt="Module")
+    r.analysed.append(fn["path"])
+    n = 0
+    for m in walk(fn["body"]):
+        if not (m.get("k") == "Match" and m.get("src") == "ForLoopDesugar"):
+            continue
+        src = None
+        for x in walk(m["scrut"]):
+            pp = place_path(x) if x.get("k") == "Field" else None
+            if pp and pp.startswith("self.") and src is None:
+                src = pp
+        if not src:
+            continue
+        inner = [mm for mm in walk(m["arms"][0]["body"]) if mm.get("k") == "Match" and mm is not m]
+        body = None
+        for arm in (inner[0]["arms"] if inner else []):
+            if arm["pat"].get("variant") == "Some":
+                body = arm["body"]
+        if body is None:
+            continue
+
+        def is_sink(n_):
+            return n_.get("k") == "MethodCall" and "wasm_encoder" in (n_.get("recv_ty") or "") and n_["method"] not in ("new", "len", "is_empty")
+        if any(x.get("k") == "Match" and x.get("src") == "ForLoopDesugar" and any(is_sink(y) for y in walk(x)) for x in walk(body)):
+            continue        # outer loops over groups of items: the inner loop is the emission loop
+
+        def cl(n_):
+            if n_.get("k") == "MethodCall" and "wasm_encoder" in (n_.get("recv_ty") or "") and n_["method"] not in ("new", "len", "is_empty"):
+                return "SINK"
+            if n_.get("k") == "MethodCall" and n_["method"] in ("is_deleted", "is_import", "is_local"):
+                return "KINDTEST"
+            if n_.get("k") == "Field" and n_["name"] == "deleted":
+                return "KINDTEST"
+            if n_.get("k") == "Match" and any(t in (n_.get("scrut_ty") or "") for t in ("FuncKind", "GlobalKind", "MemKind")):
+                return "KINDTEST"
+            return None
+        evs = {ev for ev, st in paths(body, cl) if st in ("fall", "cont")}
+        if not any("SINK" in ev for ev in evs):
+            continue        # not an emission loop (it collects, counts or renames)
+        n += 1
+        bad = [ev for ev in evs if "SINK" not in ev and "KINDTEST" not in ev]
+        ok = not bad
+        r.ob(ok, {"loop over": src, "paths": len(evs), "paths that skip the element for another reason": len(bad)})
+        if not ok:
+            r.violate("%s | loop over %s skips elements" % (fn["path"], src), F.loc(fn, m),
+                      "the emission loop over `%s` has a path that emits nothing for an element that is neither deleted nor of the other import/local kind: that element vanishes from the output and every later one shifts down" % src)
+    r.count("emission_loops", n)
+    return r
